@@ -37,6 +37,9 @@ CLAIMED = {
  "C15": dict(tech="writer/reader table agreement between the cache-key builder and the message->event converter + injectivity shape of the key; await-marking of every `with llm_params` region on the serving path; enter/exit inverse check; who-may-write on instance attributes along the request path (call graph) vs ContextVar publication",
              text="Decides the structural conditions of isolation on a shared instance: the history cache key covers, in full and injectively, everything the converter turns into events (F12 known: not injective, pinned by tests); no task switch inside the mutate/restore region of the shared LLM (F13 known at all 28 sites; any new site is a new violation); restore is the inverse of set (F14 known, pinned by tests); request-scoped data only in context variables. Replies under real interleavings are not decided.",
              ref="DESIGN.md C15"),
+ "C20": dict(tech="taint of request ids to the config-load sink with CFG dominance of the raw-id rejection and root-containment tests (both raising); try/except conversion at the caller; who-may-write on the instance cache; reaching-definition (same SSA value) analysis of the thread key and message list; sibling check of the DataStore implementations",
+             text="Decides for every config id string at once (not sampled ids) that the only file-system sink on a request-derived path is dominated by a rejection of separators/dot-dot on the RAW id and by a containment test of the normalised path, both raising ValueError that the endpoint turns into the fixed reply; that thread get/set use one key definition, generate receives stored+new in order and what is stored is that very list plus the returned reply; and that every store implementation is key- and value-faithful.",
+             ref="DESIGN.md C20"),
 }
 NA = {
  "C18": "equality of string results over all chunkings of a stateful transducer; no structural necessary condition that is not a brittle proxy (DESIGN.md C18)",
